@@ -31,6 +31,7 @@ class FPEigh:
 class C03(Check):
     pid = 'C03'
     validate = True
+    fork_logging = True       # DEBUG logging on/off is a symbolic input of every path
     element_theory = 'FP64 (IEEE-754 binary64, round-to-nearest-even, z3 FloatingPoint) for the eigenvalue map and the floor filter; REAL elsewhere'
     anchors = [('src/fast_ticc/admm/solver.py', 'x_update_prox'), ('src/fast_ticc/graphical_lasso.py', '_zero_small_elements'),
                ('src/fast_ticc/graphical_lasso.py', '_reconstruct_optimized_matrix'),
